@@ -457,6 +457,8 @@ def random_trace(seed, tid, workdir, props):
     else:
         raise common.MachineryError('could not generate a reference')
     nt = int(rng.integers(1, 61))
+    if rng.random() < 0.04:
+        nt = int(rng.integers(257, 700))          # sizes at which a vectorised path would take over
     centre = pos.mean(axis=0)
     tpos = centre + rng.uniform(-1, 1, (nt, 3)) * rng.choice([0.3, 1.0, 2.0])
     s = float(rng.choice([rng.uniform(0.05, 2.0), 0.5, 1.0, 2.0, 0.0]))
@@ -563,6 +565,12 @@ def random_trace(seed, tid, workdir, props):
     out = res0.atoms_positions
     ev.append({'op': 'CallSame', 'finite': bool(np.isfinite(out).all()),
                'law': [bool(x) for x in (np.abs(out - lawpt).max(axis=1) <= 1e-9)]})
+    same_event = ev[-1]
+    if 'C02' not in props:
+        # (C01 / C03 checks) the map is applied to another conformation before the first result is looked at again
+        moved0 = refmol.copy()
+        moved0.atoms_positions = pos @ _random_rotation(rng).T + rng.normal(size=3)
+        m(moved0)
     if n == 2:
         axes = np.tile(pos[1] - pos[0], (nt, 1))
     elif n >= 3:
@@ -618,6 +626,7 @@ def random_trace(seed, tid, workdir, props):
                        'axial': [bool(x) for x in (np.abs(ax - ax_exp) <= 1e-8)] if fin else [False] * nt,
                        'radial': [bool(x) for x in (np.abs(rad2 - rad2e) <= 4e-8 * np.maximum(d_exp, 1e-2) + 1e-12)]
                        if fin else [False] * nt})
+    held_deformed = []
     if 'C03' in props:
         for _ in range(2):
             for _try in range(30):
@@ -632,7 +641,8 @@ def random_trace(seed, tid, workdir, props):
                 continue
             mol3 = refmol.copy()
             mol3.atoms_positions = pos3
-            out3 = m(mol3).atoms_positions
+            res3 = m(mol3)
+            out3 = res3.atoms_positions
             fin = bool(np.isfinite(out3).all())
             dist = np.linalg.norm(out3 - pos3[A], axis=1)
             mutual = []
@@ -644,6 +654,7 @@ def random_trace(seed, tid, workdir, props):
             ev.append({'op': 'CallDeformed', 'finite': fin,
                        'dist': [bool(x) for x in (np.abs(dist - d_exp) <= 1e-9)] if fin else [False] * nt,
                        'mutual': mutual if fin else [False] * nt})
+            held_deformed.append((ev[-1], res3, pos3[A].copy()))
             for d in (rng.permutation(n)[:6] if n >= 3 else []):
                 pos4 = pos3.copy()
                 pos4[d] += rng.normal(0, 0.2, 3)
@@ -669,6 +680,12 @@ def random_trace(seed, tid, workdir, props):
                 out5 = m(mol5).atoms_positions
                 ev.append({'op': 'Displace', 'atom': int(d) + 1,
                            'unchanged': [bool(x) for x in (np.abs(out5 - out0).max(axis=1) <= 1e-12)]})
+    # the molecule returned first is still what it was when it was returned
+    late = res0.atoms_positions
+    same_event['law'] = [bool(a and b) for a, b in zip(same_event['law'], np.abs(late - lawpt).max(axis=1) <= 1e-9)]
+    for e_, held_, base_ in held_deformed:
+        d_late = np.linalg.norm(held_.atoms_positions - base_, axis=1)
+        e_['dist'] = [bool(a and b) for a, b in zip(e_['dist'], np.abs(d_late - d_exp) <= 1e-9)]
     return {'tid': tid, 'cfg': {'n': n, 'bonds': [list(b) for b in bonds], 'nt': nt,
                                 'degenerate': [a + 1 for a in (deg or [])]},
             'meta': {'seed': seed, 'kind': kind, 'scale': s, 'positions': pos.tolist(),
